@@ -91,7 +91,16 @@ def lemma_parser_total_len1(r: int, a: int) -> bool:
     return _parse_only_parser_error(r, [UNIVERSE[a]]) and _parse_only_parser_error(r, [])
 
 
-SPLITS = {'lemma_parser_total_len2': ('r', 6)}
+def twin_parser_total_split(r: int, a: int) -> bool:
+    """
+    pre: 0 <= r < 2 and 0 <= a < NU
+    post: __return__
+    """
+    # vacuity twin of the partitioned lemma: claims that no one-token input is ever rejected
+    return _parse_only_parser_error(r, [UNIVERSE[a]]) and a != 1
+
+
+SPLITS = {'twin_parser_total_split': ('r', 2), 'lemma_parser_total_len2': ('r', 6)}
 THOROUGH_ONLY = []
 
 for _c in (BC.YOU, BC.TRY | BC.LOOP, BC.DEFEAT, BC.NONE, BC.FUNC):
